@@ -51,6 +51,70 @@ theorem dropAxes_range {α : Type} (l : List α) : dropAxes l (List.range l.leng
 theorem reduceShape_all_nokeep (s : Shape) : reduceShape s (List.range s.length) false = [] := by
   simp [reduceShape, dropAxes_range]
 
+/-! ### `Axes.normRed`: the axes of sum / max / min (0-d arrays accept the integer axes 0 and −1) -/
+
+theorem norm_zero_one (a : Int) : Axes.norm 0 (.one a) = none := by
+  simp only [Axes.norm, normAxis]
+  rw [if_neg (by omega), if_neg (by omega)]
+  rfl
+
+theorem normRed_all (n : Nat) : Axes.normRed n .all = some (List.range n) := by
+  cases n <;> rfl
+
+theorem normRed_many (n : Nat) (ds : List Int) : Axes.normRed n (.many ds) = Axes.norm n (.many ds) := by
+  cases n <;> rfl
+
+theorem normRed_succ (n : Nat) (ax : Axes) : Axes.normRed (n + 1) ax = Axes.norm (n + 1) ax := rfl
+
+theorem normRed_pos {n : Nat} (hn : n ≠ 0) (ax : Axes) : Axes.normRed n ax = Axes.norm n ax := by
+  cases n with
+  | zero => exact absurd rfl hn
+  | succ n => rfl
+
+theorem normRed_zero_one (a : Int) :
+    Axes.normRed 0 (.one a) = if a = 0 ∨ a = -1 then some [] else none := rfl
+
+/-- whatever `Axes.norm` accepts, `Axes.normRed` accepts with the same axes -/
+theorem normRed_of_norm {n : Nat} {ax : Axes} {axes : List Nat} (h : Axes.norm n ax = some axes) :
+    Axes.normRed n ax = some axes := by
+  cases n with
+  | succ n => exact h
+  | zero =>
+    cases ax with
+    | all => exact h
+    | many ds => exact h
+    | one a => rw [norm_zero_one] at h; cases h
+
+/-- `Axes.normRed` is `Axes.norm` extended by exactly two inputs: the integer axes 0 and −1 of a
+    0-d array, which reduce over no axis -/
+theorem normRed_iff (n : Nat) (ax : Axes) (axes : List Nat) :
+    Axes.normRed n ax = some axes ↔
+      Axes.norm n ax = some axes ∨ (n = 0 ∧ (ax = .one 0 ∨ ax = .one (-1)) ∧ axes = []) := by
+  cases n with
+  | succ n => simp [normRed_succ]
+  | zero =>
+    cases ax with
+    | all => simp [normRed_all, Axes.norm]
+    | many ds => simp [normRed_many]
+    | one a =>
+      rw [normRed_zero_one, norm_zero_one]
+      by_cases ha : a = 0 ∨ a = -1
+      · rw [if_pos ha]; simp [ha, eq_comm]
+      · rw [if_neg ha]
+        simp only [not_or] at ha
+        simp [ha.1, ha.2]
+
+/-- the two new inputs: nothing is reduced -/
+theorem normRed_zero_dim {d : Int} (hd : d = 0 ∨ d = -1) : Axes.normRed 0 (.one d) = some [] := by
+  rw [normRed_zero_one, if_pos hd]
+
+/-- the axes are distinct from `Axes.norm`'s only on a 0-d array, where they are `[]` -/
+theorem normRed_cases {n : Nat} {ax : Axes} {axes : List Nat} (h : Axes.normRed n ax = some axes) :
+    Axes.norm n ax = some axes ∨ (n = 0 ∧ axes = []) := by
+  rcases (normRed_iff n ax axes).1 h with h | ⟨h0, _, h2⟩
+  · exact Or.inl h
+  · exact Or.inr ⟨h0, h2⟩
+
 variable {R : Type} [CommSemiring R]
 
 /-- `sum` over normalised axes (a scatter-add along `reduceIdx`) and `unreduce` (the gather along
